@@ -317,7 +317,7 @@ def pair(draw, tier):
     base = {"streams": ss, "utilities": us}
     kind = draw(st.sampled_from(TRANSFORMS + ["mirror", "mirror", "parallel"]))
     loop_split = False
-    if draw(st.integers(0, 5)) == 0:
+    if draw(st.integers(0, 3)) == 0:
         # a ladder with a long-glide level (a hot-oil / hot-water loop) whose duty is limited by its slope: the next level
         # takes over in the middle of a table interval, which is where a split stream adds a row
         from .c04 import glide_ladder
